@@ -830,4 +830,32 @@ func (w *MuxWorld) rpcPhase(tags map[string]string) {
 			}
 		}
 	}
+	// 4. idleness (one run in four; the draw is the last one of the run, so older tapes replay
+	// unchanged): no call is made for longer than gRPC's channel idle timeout (30 minutes by
+	// default, which MultiClientConn does not change). The channel drops its resolver and
+	// balancer and rebuilds them at the next call: the registered live sessions must still be
+	// dialable then, whatever happened to the session list during the silence.
+	if w.s.Draw(4) != 1 {
+		return
+	}
+	w.faults["idle-31min-without-calls"]++
+	w.settle(31*time.Minute, func() bool { return false })
+	w.settle(2*time.Second, func() bool { return false })
+	_, live5, tg5 := w.proxySessions()
+	if len(live5) == 0 {
+		return
+	}
+	r = w.quiescentRPC()
+	if r.done {
+		if r.err != nil && !w.allClean(live5, tg5) {
+			// recovering transport
+		} else if r.err != nil {
+			w.violate("C11", "no-call-after-idle", "after 31 virtual minutes without calls rpc #%d fails (%v) although sessions %v are registered and open", r.id, r.err, live5)
+		} else if !inSet(r.tag, live5, tg5) {
+			_, live6, tg6 := w.proxySessions()
+			if !inSet(r.tag, live6, tg6) {
+				w.violate("C11", "served-by-unregistered-session", "after idleness rpc #%d was served by %s, not among the registered live sessions %v", r.id, r.tag, live6)
+			}
+		}
+	}
 }
